@@ -12,7 +12,19 @@ import (
 	"verif/internal/instr"
 )
 
-const verifDir = "/verif"
+// verifDir is the root of the verification tree: the parent of the directory holding this
+// executable (so that a snapshot of /verif elsewhere is self-contained), /verif otherwise.
+var verifDir = func() string {
+	if exe, err := os.Executable(); err == nil {
+		if exe, err = filepath.EvalSymlinks(exe); err == nil {
+			d := filepath.Dir(filepath.Dir(exe))
+			if _, err := os.Stat(filepath.Join(d, "simrt", "go.mod")); err == nil {
+				return d
+			}
+		}
+	}
+	return "/verif"
+}()
 
 func repoDir() string {
 	if d := os.Getenv("VERIF_REPO"); d != "" {
